@@ -6,6 +6,7 @@ import (
 	"fmt"
 	"io"
 	"os"
+	"runtime"
 	"syscall"
 	"time"
 
@@ -295,6 +296,10 @@ func (r *SimReadSeeker) Seek(off int64, whence int) (int64, error) {
 func (r *SimReader) ReadAt(b []byte, off int64) (int, error) {
 	if r.p != nil && r.p.yield != nil {
 		r.p.yield("reader.ReadAt")
+	} else {
+		// a medium has latency: whoever else is runnable in the process (goroutines the code under test started itself)
+		// gets the processor while this read is "in flight". With one caller and no such goroutines this does nothing.
+		runtime.Gosched()
 	}
 	if r.p != nil {
 		if f := r.p.hitD(cReadAt, fmt.Sprintf("off=%d len=%d", off, len(b))); f != nil {
